@@ -44,6 +44,27 @@ CLAIMED["C17"] = dict(
     design="§4 C17",
 )
 
+CLAIMED["C19"] = dict(
+    text="Lean 4 theorems about the model of `reuse download` on an abstract file system (file / directory / symbolic link) with "
+         "the network as an oracle, for every identifier list, tree, invocation directory and outcome vector: C19_no_overwrite "
+         "(no existing node is altered), C19_write_set (only LICENSES/<id>.txt for requested '+'-stripped identifiers or the "
+         "--output path, plus its directory, all previously absent), C19_no_debris / C19_exit / C19_exit_on_failure (a failed "
+         "transfer leaves nothing and gives exit 1; exit 0 iff everything was supplied), C19_batch (every identifier fares exactly "
+         "as it would alone on the initial tree, at any position), C19_plus, C19_licenseref_offline (call log and extensional "
+         "independence of the oracle), C19_text, C19_usage_first, C19_all_closes. Tied to the code by running the real CLI "
+         "with urllib.request.urlopen stubbed by a generated outcome vector and comparing exit status, whole-tree snapshot "
+         "and call log with the model; `--all` is followed by the real `lint --json`.",
+    note="The model describes the repaired destination test (fixes/download-dangling-symlink.diff: a dangling symbolic link at "
+         "the destination is refused instead of written through); on a tree without that repair the check reports the violation. "
+         "Known finding: `download --all` inside LICENSES/ of a project without VCS does not close lint's gap. Trusted: Lean kernel, "
+         "harness, lexical path resolution (no directories reached through symbolic links), click's option parsing mirrored by "
+         "usageError, lint's missing-licence computation (input of the model; checked end to end by the real lint). The network "
+         "oracle has two outcomes (text / URLError); exceptions urllib does not wrap are only probed by the oracle.",
+    technique="Lean 4 proof (file-system state machine, induction over the identifier list, step simulation for batch "
+              "independence) + stubbed-network CLI differential with whole-tree snapshots",
+    design="§4 C19",
+)
+
 NOT_YET = {}
 
 
